@@ -6,6 +6,9 @@ NOTE = ('Assumes: clang-14 -O1 IR of the kernel TU faithfully compiles the /repo
         'against a g++ ASan/UBSan build of the same harness); allocation never fails; exception handlers/cleanups not explored; environment models and bounds '
         'are listed per harness in the evidence file. Trusted: clang, z3, engine/irsym.py, the reference models written in the harnesses.')
 CLAIMED = {
+ 'C06': ('bounded symbolic model checking over the FULL range of every argument (bit-vector variables of the real width, no sampling): truncation_check for all 64 (dest,source) pairs of the 8 integer types, '
+         'from_int for 9 enums x 4 value types, ceil_div, ceil_div_signed (full i32/i64 range and the multiplication characterisation on [-1024,1023]^2), div, mod, clamp, diff, is_power_of_2, '
+         'next_power_of_2, log2, power_of_2, shifted_mask/test, interval_distance against 64/128-bit references; loops unwound to width+6 with the bound checked', '3 C06'),
  'C10': ('bounded symbolic model checking: all subsets (as bit-vector variables, no enumeration) of enums with 1,3,8,9,17 (thorough: 33,64,65) enumerators in 8/16/32/64-bit words; '
          'set algebra of | & ^ ~ and assigning forms, depth-1 and depth-2 expressions, set/get/[]/init-list/null, ==, !=, hash, is_subset_eq against a set model; UNSAT = holds for every subset', '3 C10'),
 }
